@@ -127,6 +127,14 @@ func (fv *FV) call(e *Env, x *ast.CallExpr) Value {
 		fv.note("call through function value %s: opaque", exprStr(x.Fun))
 		return fv.opaqueCall(e, x, nil, recv, args, rt, true)
 	}
+	if isIface {
+		if m, ok := libModels[fn.FullName()]; ok {
+			if v, ok := m(fv, e, x, recv, args); ok {
+				fv.trustedUsed["library model: "+fn.FullName()] = true
+				return v
+			}
+		}
+	}
 	if !isIface {
 		if m, ok := libModels[fn.FullName()]; ok {
 			if v, ok := m(fv, e, x, recv, args); ok {
@@ -180,7 +188,24 @@ func (fv *FV) recvValue(e *Env, x ast.Expr, fn *types.Func) Value {
 func (fv *FV) pureResult(e *Env, fn *types.Func, rt types.Type, recv *Value, args []Value) Value {
 	v := fv.freshValue(rt, "r$"+fn.Name())
 	fv.nonNilResults(fn, v)
+	fv.assumeAllocated(e, v)
 	return v
+}
+
+// assumeAllocated: whatever a call returns exists (is allocated) afterwards.
+func (fv *FV) assumeAllocated(e *Env, v Value) {
+	switch v.K {
+	case kTuple:
+		for _, t := range v.Tuple {
+			fv.assumeAllocated(e, t)
+		}
+	case kSlice:
+		fv.assume(e, or(eq(v.T, tNull), sel(e.alloc, fv.rootOf(v.T))))
+	case kScalar:
+		if v.T.Sort == sRef {
+			fv.assume(e, or(eq(v.T, tNull), sel(e.alloc, fv.rootOf(v.T))))
+		}
+	}
 }
 
 func (fv *FV) nonNilResults(fn *types.Func, v Value) {
@@ -216,6 +241,7 @@ func (fv *FV) opaqueCall(e *Env, x *ast.CallExpr, fn *types.Func, recv *Value, a
 	}
 	v := fv.freshValue(rt, "r$"+sanitize(lastSeg(name)))
 	fv.nonNilResults(fn, v)
+	fv.assumeAllocated(e, v)
 	return v
 }
 
@@ -735,6 +761,7 @@ func (fv *FV) applyContract(e *Env, x *ast.CallExpr, u *FuncUnit, recv *Value, a
 	res := sig.Results()
 	for i := 0; i < res.Len(); i++ {
 		rv := fv.freshValue(res.At(i).Type(), "r$"+u.Fn.Name())
+		fv.assumeAllocated(e, rv)
 		results = append(results, rv)
 		if res.At(i).Name() != "" {
 			bind[res.At(i)] = rv
@@ -1117,6 +1144,26 @@ func (fv *FV) ghostBuiltin(e *Env, x *ast.CallExpr, fn *types.Func) Value {
 	case "gh_errIs":
 		a, b := fv.expr(e, x.Args[0]), fv.expr(e, x.Args[1])
 		return Value{K: kScalar, T: fv.errIs(a.T, b.T)}
+	case "gh_kvHas":
+		k := fv.expr(e, x.Args[0])
+		return Value{K: kScalar, T: sel(fv.kvDomArr(e), k.T)}
+	case "gh_kvVal":
+		k := fv.expr(e, x.Args[0])
+		return Value{K: kScalar, T: sel(fv.kvValArr(e), k.T)}
+	case "gh_kvWrites":
+		return Value{K: kScalar, T: fv.loadComp(e, kvWrites, sInt, tNull)}
+	case "gh_bytesId":
+		v := fv.expr(e, x.Args[0])
+		return Value{K: kScalar, T: fv.bytesID(e, v)}
+	case "gh_keyOf":
+		kf := fv.expr(e, x.Args[0])
+		var args []Value
+		var ats []types.Type
+		for _, a := range x.Args[1:] {
+			args = append(args, fv.expr(e, a))
+			ats = append(ats, nil) // spec passes values, not pointers
+		}
+		return Value{K: kScalar, T: fv.keyID(e, kf.T, args, ats)}
 	case "gh_sameRef":
 		a, b := fv.expr(e, x.Args[0]), fv.expr(e, x.Args[1])
 		return Value{K: kScalar, T: eq(a.T, b.T)}
